@@ -146,6 +146,11 @@ func numCorpus() []numCorpusEntry {
 	add("Subtract", fl(0.3), fl(0.1), "cancellation")
 	add("Subtract", pf("1.0000000000000000000000000000000000001"), n(1), "cancellation 512/64")
 	add("Subtract", n(5), n(5), "x - x = 0")
+	add("Subtract", fl(2), n(-(math.MaxInt64 - 2)), "seeded change 1: 53-bit receiver, 64-bit argument, sum MaxInt64 must be exact")
+	add("Subtract", n(-(math.MaxInt64 - 2)), fl(2), "seeded change 1 reversed")
+	add("Subtract", fl(1), pf("0.1"), "53-bit receiver minus 512-bit argument: result at 512 bits")
+	add("Add", fl(2), n(math.MaxInt64-2), "53-bit receiver plus 64-bit argument = MaxInt64")
+	add("Divide", fl(1), pf("3"), "53-bit receiver / 512-bit argument: quotient at 512 bits")
 	add("Negate", n(math.MinInt64), cty.NilVal, "-MinInt64")
 	add("Negate", cty.Zero, cty.NilVal, "-0")
 	add("Negate", cty.NegativeInfinity, cty.NilVal, "-(-inf)")
